@@ -540,6 +540,11 @@ constexpr MagRepresentationOrError<T> get_value_result(Magnitude<BPs...>) {
         return {MagRepresentationOutcome::ERR_CANNOT_FIT};
     }
 
+    // Magnitudes are strictly positive: a result of zero means the value underflowed.
+    if (static_cast<RealPart<T>>(widened_result.value) == RealPart<T>{0}) {
+        return {MagRepresentationOutcome::ERR_CANNOT_FIT};
+    }
+
     return {MagRepresentationOutcome::OK, static_cast<T>(widened_result.value)};
 }
 
